@@ -8,6 +8,7 @@ import (
 	"strings"
 
 	sdk "github.com/pokt-network/posmint/types"
+	govTypes "github.com/pokt-network/posmint/x/gov/types"
 )
 
 const sec = int64(1000000000)
@@ -25,6 +26,13 @@ func (f *Fam) genInit(r *rand.Rand) string {
 		pick(r, 10000000000000000, 100000000000000000, 1000000000000, 0, 1000000000000000000),
 		pick(r, 0, 1000, 10000, 10000))
 	fmt.Fprintf(&sb, " daoo=%s daot=%d aclo=%s", hx(Keys[r.Intn(3)].Addr), pick(r, 0, 1000, 50000000), hx(Keys[r.Intn(3)].Addr))
+	fmt.Fprintf(&sb, " mods=%s,%s,%s,%s keys=", poolAddr, feeAddr, posAddr, daoAddr)
+	for i := 0; i < NKeys; i++ {
+		if i > 0 {
+			sb.WriteByte(',')
+		}
+		sb.WriteString(hx(Keys[i].Addr))
+	}
 	nv := r.Intn(7)
 	perm := r.Perm(NKeys)
 	for i, ki := range perm {
@@ -138,6 +146,25 @@ func (f *Fam) genTx(r *rand.Rand, s *Snapshot) string {
 		mode = "simulate"
 	}
 	ki := r.Intn(NKeys)
+	// bias the acting key towards one whose state makes the message meaningful
+	want := r.Intn(100)
+	var cands []int
+	for i := 0; i < NKeys; i++ {
+		v, ok := s.Vals[hx(Keys[i].Addr)]
+		switch {
+		case want < 12 && ok && v.Jailed && v.Status != 0: // unjail candidates
+			cands = append(cands, i)
+		case want >= 12 && want < 25 && ok && v.Status == 2: // unstake candidates
+			cands = append(cands, i)
+		case want >= 25 && want < 40 && (!ok || v.Status == 0): // stake candidates
+			cands = append(cands, i)
+		}
+	}
+	forced := ""
+	if len(cands) > 0 {
+		ki = cands[r.Intn(len(cands))]
+		forced = []string{"unjail", "unstake", "stake"}[map[bool]int{true: 0, false: 1}[want < 12]+map[bool]int{true: 1, false: 0}[want >= 25]]
+	}
 	addr := hx(Keys[ki].Addr)
 	other := hx(Keys[r.Intn(NKeys)].Addr)
 	bal := balOf(s, addr, Denom)
@@ -154,7 +181,29 @@ func (f *Fam) genTx(r *rand.Rand, s *Snapshot) string {
 	}
 	var kind, fields string
 	signer := ki
-	switch x := r.Intn(100); {
+	x := r.Intn(100)
+	switch forced {
+	case "stake":
+		x = 0
+	case "unstake":
+		x = 30
+	case "unjail":
+		x = 45
+	}
+	// governance messages come mostly from the accounts that may issue them
+	if x >= 75 && r.Intn(3) != 0 {
+		var acl, dao string
+		govOwner(s, &acl, &dao)
+		who := acl
+		if x >= 85 && x < 98 {
+			who = dao
+		}
+		if i, ok := keyByAddr[who]; ok {
+			ki, addr, signer = i, who, i
+			bal = balOf(s, addr, Denom)
+		}
+	}
+	switch {
 	case x < 25:
 		kind = "stake"
 		amt := sdk.NewInt(pick(r, ms, ms, ms+1, ms-1, 2*ms, ms+int64(r.Intn(3000000)), 1, 0))
@@ -222,17 +271,17 @@ func (f *Fam) genTx(r *rand.Rand, s *Snapshot) string {
 		fields = fmt.Sprintf("from=%s h=%d ver=%s", addr, pick(r, 0, 100), []string{"1.0", "2.0"}[r.Intn(2)])
 	}
 	// who signs: usually the declared signer; sometimes another key (attack)
-	if r.Intn(10) == 0 {
+	if r.Intn(25) == 0 {
 		signer = r.Intn(NKeys)
 	}
 	req := f.requiredFee(kind).Int64()
-	fee := pick(r, req, req, req, req+1, req*2, 0, req-1)
+	fee := pick(r, req, req, req, req, req, req, req+1, req*2, 0, req-1)
 	if fee < 0 {
 		fee = 0
 	}
 	mut := "none"
-	if r.Intn(10) == 0 {
-		mut = []string{"sig", "fee", "memo", "ent", "emptysig", "trunc", "flip", "garbage"}[r.Intn(8)]
+	if r.Intn(16) == 0 {
+		mut = []string{"sig", "fee", "memo", "ent", "emptysig", "trunc", "garbage"}[r.Intn(7)]
 	}
 	pk := 1
 	if r.Intn(5) == 0 {
@@ -263,6 +312,9 @@ func (f *Fam) Gen(r *rand.Rand, i int) string {
 		f.gen.txsLeft--
 		if r.Intn(12) == 0 {
 			a := hx(Keys[r.Intn(NKeys)].Addr)
+			if r.Intn(60) == 0 {
+				return fmt.Sprintf("award %s -5", a) // BeginBlock will panic on it
+			}
 			return fmt.Sprintf("award %s %d", a, pick(r, 1, 1000, 1000000, 0))
 		}
 		if r.Intn(25) == 0 && len(s.Vals) > 0 {
@@ -280,4 +332,16 @@ func (f *Fam) Gen(r *rand.Rand, i int) string {
 		return "commit"
 	}
 	return f.genInit(r)
+}
+
+// govOwner reads the ACL owner (of every key, as set at genesis) and the DAO owner from the state.
+func govOwner(s *Snapshot, acl, dao *string) {
+	var a govTypes.ACL
+	govTypes.ModuleCdc.UnmarshalJSON([]byte(s.Params["gov/acl"]), &a)
+	if len(a) > 0 {
+		*acl = hx(a[0].Addr)
+	}
+	var o sdk.Address
+	govTypes.ModuleCdc.UnmarshalJSON([]byte(s.Params["gov/daoOwner"]), &o)
+	*dao = hx(o)
 }
